@@ -97,7 +97,20 @@ func (e faultErr) Is(t error) bool {
 	return t == errInjected || errors.Is(e.also, t)
 }
 
-var faultKinds = []error{nil, os.ErrClosed, io.ErrClosedPipe, net.ErrClosed, syscall.EPIPE, syscall.ECONNRESET, context.Canceled, os.ErrDeadlineExceeded, io.ErrUnexpectedEOF, nil}
+// Temporary / Timeout: what the wrapped error says of itself (net.Error style)
+func (e faultErr) Temporary() bool {
+	t, ok := e.also.(interface{ Temporary() bool })
+	return ok && t.Temporary()
+}
+func (e faultErr) Timeout() bool {
+	t, ok := e.also.(interface{ Timeout() bool })
+	return ok && t.Timeout()
+}
+func (e faultErr) Unwrap() error { return e.also }
+
+var faultKinds = []error{nil, os.ErrClosed, io.ErrClosedPipe, net.ErrClosed, syscall.EPIPE, syscall.ECONNRESET, context.Canceled, os.ErrDeadlineExceeded, io.ErrUnexpectedEOF, nil,
+	// errors that call themselves temporary (Temporary() / Timeout() true): a failed read is a failed read
+	syscall.EAGAIN, syscall.EINTR, syscall.ETIMEDOUT}
 var faultCount int
 
 // nextFault: the error the next faulty reader or writer will answer with — the plain injected fault, or one that
